@@ -1,6 +1,15 @@
-import Claripy.Solver.Spec
+import ClaripyProofs.Lemmas.Solver.CachelessHistory
 /-!
 # C17 — a solver stays correct after the backend gives up
+
+Proved:
+  * L1 (every class): when `_satisfiable` / `_batch_eval` / `_extrema` end in the give-up error, the oracle did answer
+    `unknown`, the frontend record is as the model callbacks left it and the assertion frames of the solver object
+    are restored (`z3Satisfiable_spec`, `z3BatchEval_spec`, `z3Extrema_spec`, error branches).
+  * SolverCacheless, whole stack: a call that gives up leaves the frontend invariant intact
+    (`C17_giveup_keeps_invariant`), hence in any history every answer — in particular those AFTER a give-up — is
+    one the property statement allows or is itself an honest give-up (`C17_cacheless_after_giveup`).
+The caching classes are covered by fault injection on the real code plus the trace correspondence (design_notes/C17.md).
 -/
 namespace Claripy.Props.C17
 open Claripy.Solver Claripy.Gen.SolverMro LayerName
@@ -9,5 +18,22 @@ theorem C17_mro_solver : mro .Solver =
     [ConcreteHandlerMixin, EagerResolutionMixin, ConstraintFilterMixin, ConstraintDeduplicatorMixin,
      SimplifySkipperMixin, SatCacheMixin, ModelCacheMixin, ConstraintExpansionMixin, SimplifyHelperMixin,
      FullFrontend, ConstrainedFrontend, Frontend] := by decide
+
+/-- whatever a call does — answer, raise unsat, give up — the invariant all later answers rest on holds afterwards -/
+theorem C17_giveup_keeps_invariant {E : Env} {R : Con → Prop} (hR : Reg R E) (hE : OracleExact E) (hS : SimpOn R E)
+    (hT : CheapSound E) (w : World) (U : List Con) (hw : WInv R U w) (op : Op) (hop : InScope R op) :
+    WInv R (usersAfter U op) (step E .SolverCacheless w 0 op).2 :=
+  (cl_step hR hE hS hT w U hw op hop).2
+
+/-- no hypothesis that the backend answers: every outcome of every history is allowed, or is the give-up error with
+the oracle having answered `unknown` -/
+theorem C17_cacheless_after_giveup {E : Env} {R : Con → Prop} (hR : Reg R E) (hE : OracleExact E) (hS : SimpOn R E)
+    (hT : CheapSound E) (hist : List Op) (hops : ∀ op ∈ hist, InScope R op) :
+    ∀ x ∈ runHist E .SolverCacheless (World.init false false) [[]] (hist.map fun op => (0, op)),
+      Judge x.1 x.2.1 x.2.2 ∨ (x.2.2 = .err .giveUp ∧ GaveUp E) := by
+  intro x hx
+  rcases cl_hist_giveup hR hE hS hT hist _ _ (winv_init R) hops x hx with h | ⟨e, he, hg⟩
+  · exact Or.inl h
+  · exact Or.inr ⟨by rw [he, hg.1], hg.2⟩
 
 end Claripy.Props.C17
